@@ -441,6 +441,10 @@ fn lazy(out: &mut dyn Write, r: &mut ChaCha20Rng, seqs: &[String]) {
                 if *class == "invalid" && from == "element" {
                     continue;
                 }
+                let has_mutator = seq.chars().any(|c| !matches!(c, 'C' | 'E' | 'V'));
+                if has_mutator && ci != 0 && !(ci == 1 && seq.len() <= 2) {
+                    continue;
+                }
                 cnt += 1;
                 if cnt % 40 == 0 {
                     emit(out, json!({"k":"reset","build":BUILD}));
@@ -464,7 +468,8 @@ fn lazy(out: &mut dyn Write, r: &mut ChaCha20Rng, seqs: &[String]) {
                 .and_then(|x| x);
                 emit(out, json!({"k":"lazy_new","from":from,"seq":seq,"class":class,"s":fq_bytes(&s),"p":rep(&e),
                     "nc":cs.num_constraints(),"nw":cs.num_witness_variables(),"ok":var.is_ok()}));
-                if let Ok(v) = &var {
+                if let Ok(v0) = &var {
+                    let mut v: ElementVar = v0.clone();
                     for op in seq.chars() {
                         let val = match op {
                             'C' => guarded(|| v.compress_to_field().map(|x| json!({"fq": fq_value(&x)}))),
@@ -472,7 +477,22 @@ fn lazy(out: &mut dyn Write, r: &mut ChaCha20Rng, seqs: &[String]) {
                                 let _ = v.cs();
                                 Ok(json!({}))
                             }),
-                            _ => guarded(|| Ok(json!({"elt": elt_value(v)}))),
+                            'V' => guarded(|| Ok(json!({"elt": elt_value(&v)}))),
+                            // in-place group operations: the variable must afterwards denote the new element
+                            'D' => guarded(|| v.double_in_place().map(|_| json!({}))),
+                            'N' => guarded(|| {
+                                let n = v.negate()?;
+                                v = n;
+                                Ok(json!({}))
+                            }),
+                            'P' => guarded(|| {
+                                v += Element::GENERATOR;
+                                Ok(json!({}))
+                            }),
+                            _ => guarded(|| {
+                                v -= Element::GENERATOR;
+                                Ok(json!({}))
+                            }),
                         };
                         let mut ev = json!({"k":"lazy_op","op": op.to_string(), "nc": cs.num_constraints(), "nw": cs.num_witness_variables()});
                         match val {
